@@ -268,6 +268,16 @@ def run_batch(desc):
   else:
     check, name = make_check(desc)
     names = [name]
+    if desc.get('pre_run'):
+      # the protobufs already carry (negative) entries of the same check from an earlier, weaker run:
+      # each key alone (no batch partner) and, where the check has a parameter, its weakest setting
+      weakest = {'CheckFermat': lambda: single.CheckFermat(max_steps=0),
+                 'CheckContinuedFractions': lambda: single.CheckContinuedFractions(bound=2**4000),
+                 'CheckGCDN1': lambda: agg.CheckGCDN1(gcd_bound=2**4000),
+                 'CheckBitPatterns': lambda: single.CheckBitPatterns(pattern_sizes=[100000])}
+      first = weakest.get(name, lambda: check)()
+      for k in keys:
+        libcall(first.Check, [k])
     libcall(check.Check, keys)
   recs = validate(keys, ns, names, 'record', {'check': desc['check'], 'param': desc.get('param', 0)})
   fams = sorted({s['f'] for s in desc['keys']})
@@ -288,7 +298,7 @@ def strat_batch(tier):
       'keys': st.lists(key, min_size=1, max_size=5),
       'check': st.sampled_from(FACTORING * 3 + SINGLE_NAMES + ['ALL']),
       'param': st.integers(0, 10**6),
-      'aim': st.booleans(),
+      'aim': st.booleans(), 'pre_run': st.sampled_from([False, False, True]),
       'perm': st.one_of(st.none(), st.permutations(list(range(5))).map(list)),
   })
 
